@@ -191,6 +191,21 @@ func driverCheck(doc, upd bson.D, afs []bson.D, applied result) (checked bool) {
 	return true
 }
 
+// overlap: one path is a prefix of (or equal to) the other when a positional segment ($[], $[id]) stands for any
+// array index: "a.$[]" and "a.1" address the same element once the array is long enough.
+func overlap(p, q string) bool {
+	a, b := strings.Split(p, "."), strings.Split(q, ".")
+	isPos := func(s string) bool { return strings.HasPrefix(s, "$[") }
+	isNum := func(s string) bool { _, err := strconv.Atoi(s); return err == nil }
+	for i := 0; i < len(a) && i < len(b); i++ {
+		if a[i] == b[i] || (isPos(a[i]) && (isPos(b[i]) || isNum(b[i]))) || (isPos(b[i]) && isNum(a[i])) {
+			continue
+		}
+		return false
+	}
+	return true
+}
+
 var idempotent = map[string]bool{"$set": true, "$unset": true, "$min": true, "$max": true, "$addToSet": true, "$pull": true, "$pullAll": true}
 
 func sameBytes(a, b bson.D) bool {
@@ -355,7 +370,7 @@ func main() {
 		// change something, so they are outside the idempotence claim
 		for x := range paths {
 			for y := range paths {
-				if x != y && (paths[x] == paths[y] || strings.HasPrefix(paths[x], paths[y]+".")) {
+				if x != y && (paths[x] == paths[y] || strings.HasPrefix(paths[x], paths[y]+".") || overlap(paths[x], paths[y])) {
 					all = false
 				}
 			}
